@@ -23,13 +23,13 @@ P = {
    text="Complete grids: binomial_bounds (every num_samples to 4096/8192 + geometric grid to 2^26 x 102-290 thetas x sd 1..3, against an exact binomial-tail oracle where the header documents exactness), ICON estimator for lg_k 4..26 and every C to 2^16/2^18 (monotone, continuity at the switch, against the definition of the estimator), HLL tables, and the order / nesting / exactness clauses through the API of Theta, Tuple, HLL (3 types in lock-step), CPC and their set-operation results after every update to 16k. The statistical clauses are evaluated exactly over the fixed family of streams {t*2^32 .. +n-1}, t < 1024 (family_enumeration) against the published RSE with a 5-sigma allowance.",
    note="Statistical clauses decided only over the stated deterministic family; calibration gates set at >= 4x the value measured on the unchanged tree where the documentation gives no exact figure."),
  "C07": dict(engine="E1xE3", design="3/C07", technique="BFS over update/merge histories with every coin outcome as a branch, against an exact multiset model",
-   text="KLL (k=8; float and string with a reversing comparator), REQ (k=4, HRA/LRA, both construction coins) and classic quantiles (k=2,4; int and string): BFS over update / query / merge histories (merge operands from an enumerated menu incl. unequal k and operands that are themselves merge results, by lvalue, rvalue and in the reverse direction) with every outcome of the internal coin flips and of the down-sampling offset as a branch; in every state n, exact min/max, iterator termination / count / weights (2^level) / sum, retained bound, sorted view, rank and quantile monotonicity and coherence, CDF/PMF, rejection of invalid queries and exactness before compaction are compared with the exact multiset of accepted items. Merge-then-long scenarios follow merges (also into the operand) by a macro step of 100-300 further updates under a fixed coin schedule with the space bound checked after every update (KLL k=8, REQ k=4 and k=6, the smallest k whose nominal capacity changes with the number of compactions).",
+   text="KLL (k=8; float and string with a reversing comparator), REQ (k=4, HRA/LRA, both construction coins) and classic quantiles (k=2,4; int and string): BFS over update / query / merge histories (merge operands from an enumerated menu incl. unequal k and operands that are themselves merge results, by lvalue, rvalue and in the reverse direction) with every outcome of the internal coin flips and of the down-sampling offset as a branch; in every state n, exact min/max, iterator termination / count / weights (2^level) / sum, retained bound, sorted view, rank and quantile monotonicity and coherence, CDF/PMF, rejection of invalid queries and exactness before compaction are compared with the exact multiset of accepted items. Merge-then-long scenarios follow merges (also into the operand) by a macro step of 100-300 further updates under a fixed coin schedule with the space bound checked after every update (KLL k=8, REQ k=4 and k=6, the smallest k whose nominal capacity changes with the number of compactions; and the largest legal and the default sizes: KLL k=65535/200, REQ k=254/12, classic k=32768/128).",
    note="Smallest legal k; 3-4 value domains; unsorted level 0 canonicalised as a multiset (sortedness flags and the cached-view flag are part of the state); depth bounds per scenario in the evidence."),
  "C08": dict(engine="E3", design="3/C08", technique="complete coin-tree enumeration with Markov state merging; exact integer unbiasedness identity",
-   text="(1) BFS over distribution-states: every update sequence over a 3-value domain up to a length bound with the complete coin tree and Markov merging; (2) complete coin trees for distinct-valued stream shapes and merge trees (A.merge(B), rvalue, reverse direction, three-way, unequal k) with the exact identity E[n*rank(v)] == true count for every grid value and both criteria, and outcome-independence of the number of flips; (3) complete coin trees over long small-domain streams with live (cloned, validated) states - REQ to n=460/900 so that several levels grow; (4) one-step martingale checks along long distinct-valued streams under fixed coin schedules for KLL and classic (not REQ, whose odd compactions reuse the complement of the previous coin); (5) the published error follows the smallest contributing k through merge chains; (6) long streams over a fixed enumerated family of bit sources against the published error (family_enumeration).",
+   text="(1) BFS over distribution-states: every update sequence over a 3-value domain up to a length bound with the complete coin tree and Markov merging; (2) complete coin trees for distinct-valued stream shapes and merge trees (A.merge(B), rvalue, reverse direction, three-way, unequal k) with the exact identity E[n*rank(v)] == true count for every grid value and both criteria, and outcome-independence of the number of flips; (3) complete coin trees over long small-domain streams with live (cloned, validated) states - REQ to n=460/900 so that several levels grow; (4) one-step martingale checks along long distinct-valued streams under fixed coin schedules for KLL and classic (not REQ, whose odd compactions reuse the complement of the previous coin); (5) the published error follows the smallest contributing k through merge chains; (5b) complete trees over classic down-sampling merges with k ratios 4 and 8 whose larger-k side is in estimation mode (the stride offset is a raw draw); (6) long streams over a fixed enumerated family of bit sources against the published error (family_enumeration).",
    note="Exhaustive parts at the smallest legal k; raw-draw interval discovery assumes that a difference between two values of one draw shows under one of the enumerated continuations; clones are validated against the canonical state on every use."),
  "C09": dict(engine="E1-corpus", design="3/C09", technique="one-step differential (serialize/deserialize/continue) from every state of enumerated per-family corpora",
-   text="For every state of the enumerated corpora of all 34 (type, image kind) families (every n to a bound x patterns x configurations x coin schedules, post-merge states, union results, HLL_4 aux exceptions, every theta bit-packing width 1..63 x count 1..17): byte-vector image == stream image, advertised size, header reservation (h in {1,7,8,13}), exact-size buffer under ASan, exact stream consumption with a sentinel tail, observational equality of the restored objects (bytes, stream, wrap), re-serialization identity (content identity for hash-table layouts), release of everything on destruction, and identical observations under a chain of continuation operations with identical draw schedules.",
+   text="For every state of the enumerated corpora of all 34 (type, image kind) families (every n to a bound x patterns x configurations x coin schedules, post-merge states incl. merges across different k in both directions, union results, intersection / A-not-B results that are non-empty yet retain nothing, sampling probabilities down to 0.01, HLL_4 aux exceptions, every theta bit-packing width 1..63 x count 1..17): byte-vector image == stream image, advertised size, header reservation (h in {1,7,8,13}), exact-size buffer under ASan, exact stream consumption with a sentinel tail, observational equality of the restored objects (bytes, stream, wrap), re-serialization identity (content identity for hash-table layouts), release of everything on destruction, and identical observations under a chain of continuation operations with identical draw schedules.",
    note="Corpus = explicit enumerations in harness/fam_*.hpp, not every reachable state; observation vectors are the public API plus a few private fields that are serialized."),
  "C10": dict(engine="E1-corpus", design="3/C10", technique="documentation-derived decoders and golden images checked over enumerated corpora; hash functions against independent implementations",
    text="(1) MurmurHash3_x64_128, XXHash64 (one-shot and incremental) and compute_seed_hash against independent implementations for every length 0..80 x 8 seeds x 4 patterns; (2) golden corpus of ~8000 images written by the baseline commit: each still deserializes (bytes and stream) to the recorded observation, and the same states written by the current tree reproduce the golden bytes (listed exceptions for fix: commits); (3) the 15 shipped reference images incl. Java theta v1/v2, KLL v1, classic quantiles 0.3.0-0.8.3, t-digest reference files; theta v1/v2 images synthesised from the documentation for every theta corpus state; (4) decoders written only from the documented layouts for all 34 families recover from every corpus image what the API reports.",
@@ -41,7 +41,7 @@ P = {
    text="Frequent-items sketch at the smallest map sizes with a harness hasher that places items in chosen slots (distinct, wrapping cluster, all-colliding): every history to the depth bound, with bounds, estimates, max error, total weight, and both error-type result sets compared with exact counts for every item in every state.",
    note="lg_max_map_size 3..4, 8 items, weights {1,2,5}."),
  "C13": dict(engine="E1", design="3/C13", technique="C01/C02 explorers instantiated for tuple sketches with a non-commutative summary fold model",
-   text="Tuple update sketch, union, intersection, A-not-B, filter and array-of-doubles explored like C01/C02 with summary policy s<-31s+v so that dropped, repeated or reordered folds are visible; keys compared with a lock-step theta sketch. Every update() overload is swept over a typed boundary grid and all 2^16 / 2^8 values of the 16- and 8-bit integer types against the theta sketch and the independent hash.",
+   text="Tuple update sketch, union (tiny sizes through the private constructor and lg_k 5 through each family's builder, p in {1, 0.5}), intersection, A-not-B, filter and array-of-doubles explored like C01/C02 with summary policy s<-31s+v so that dropped, repeated or reordered folds are visible; keys compared with a lock-step theta sketch. Every update() overload is swept over a typed boundary grid and all 2^16 / 2^8 values of the 16- and 8-bit integer types against the theta sketch and the independent hash.",
    note="Same bounds as C01/C02."),
  "C14": dict(engine="E1", design="3/C14", technique="BFS over updates/merges against an exact counter map and an independently hashed cell model",
    text="Count-min sketches for several (num_hashes, num_buckets, seed): every history to the depth bound; the cell array is predicted with the oracle MurmurHash3; estimates/bounds/total weight/merge linearity/refused merges (self, other seed, a different seed with the same 16-bit seed hash, other shapes incl. equal cell count) checked in every state.",
@@ -54,16 +54,16 @@ P = {
    note="Integer weights; minimum decision-interval width assumption recorded in the evidence."),
  "C17": dict(engine="E1+E2", design="3/C17", technique="BFS over short value/merge/query sequences and deviation-bounded long streams against an exact multiset",
    text="t-digest (k=10,11,20; double/float): E1 BFS by history replay over updates (incl. a huge value and NaN), rank/quantile queries, serialize, compress, merge(self), merge with a menu of 7 operands in both directions (depth 6/8 values, 4/5 merges) and from four hand-built reference-format images with heavy extreme centroids; E2 all paths with <=1 (every position) / <=2 (block granularity) deviations from six 650..900-step streams crossing several compressions with alternating merge direction. Oracle in every state against the exact multiset: total weight, emptiness, centroid weights, centroid and buffer bounds, exact extremes, sorted means, rank in [0,1] non-decreasing with 0 below min and 1 above max, quantile non-decreasing within [min,max] with quantile(0)==min and quantile(1)==max, CDF/PMF consistent, invalid queries rejected; rank error against q(1-q)/k + 1/n scaled (tighter in the tails) for n >= 200.",
-   note="k <= 20, n <= 900; accuracy multiples (45 middle, 6 tails) set above the worst ratios measured on the unchanged tree (20.9, 2.0) because the documentation gives no figure; with an infinity accepted only weight, extremes and memory safety are demanded; one known finding (rank decreasing after an update below a heavy first centroid of a reference-format image)."),
+   note="k <= 20 (plus k = 32767, 32768, 65535 on two skewed streams), n <= 900; every query clause is also evaluated as the first query on a fresh copy; accuracy multiples (45 middle, 6 tails) set above the worst ratios measured on the unchanged tree (20.9, 2.0) because the documentation gives no figure; with an infinity accepted only weight, extremes and memory safety are demanded; one known finding (rank decreasing after an update below a heavy first centroid of a reference-format image)."),
  "C18": dict(engine="E3", design="3/C18", technique="probabilistic choice-tree exploration with interval discovery over raw draws and Markov merging; exact inclusion-probability identities",
-   text="EBPPS for k 1..3, weights {1,2,4}: DFS over every weight sequence to a length bound with the exact distribution over canonical states (every next_double / random_idx draw of ebpps_sample owned by the harness, incl. the draws of get_result and of iteration); every ordered pair of an operand menu merged by const& and by && (swap and no-swap, unequal k, empty operands, restored operands; joint distribution = product of operand distributions), chains (A<-B)<-C, further updates after merges, round trips by bytes and stream as distributions. On every branch: n, cumulative weight and k exact, c == min(k, W/wmax), merge adds n and W and takes the smaller k, every result has floor(c) or ceil(c) items all from the input and none twice, equal weights and n <= k keep everything; exactly over all branches (1e-9): P(i in result) == c*w_i/W for every item, E|result| == c, P(non-input) == 0.",
+   text="EBPPS for k 1..3 (k 4..5 in a few special merge pairs whose lighter operand holds the partial item and the heaviest weight), weights {1,2,4}: DFS over every weight sequence to a length bound with the exact distribution over canonical states (every next_double / random_idx draw of ebpps_sample owned by the harness, incl. the draws of get_result and of iteration); every ordered pair of an operand menu merged by const& and by && (swap and no-swap, unequal k, empty operands, restored operands; joint distribution = product of operand distributions), chains (A<-B)<-C, further updates after merges, round trips by bytes and stream as distributions. On every branch: n, cumulative weight and k exact, c == min(k, W/wmax), merge adds n and W and takes the smaller k, every result has floor(c) or ceil(c) items all from the input and none twice, equal weights and n <= k keep everything; exactly over all branches (1e-9): P(i in result) == c*w_i/W for every item, E|result| == c, P(non-input) == 0.",
    note="Lengths <= 4 (quick) / <= k+4, 6 at k=3 (thorough); merge pairs n_A+n_B <= 3 / 5; grid 4096 for update and merge draws (thresholds are rationals with denominators <= 1344), 256 for the query draw; probes start from a clone of the replayed pre-state, every state entering a distribution is re-created by a from-scratch replay with identical canon."),
  "C19": dict(engine="E5", design="3/C19", technique="BFS over lifecycle operations on 2-3 slots per family with a tracking allocator and instrumented items under ASan",
    text="For 26 sketch / operator families (incl. tuple sketches and unions with instrumented-item summaries and array-of-doubles sketches whose tables grow, and an HLL_4 sketch driven by injected coupons through creation, survival and emptying of its exception map) instantiated with the arena-tracking allocator (a separate arena per slot) and the instrumented item type: BFS to depth 6 (quick) / 8 (thorough) over construct, light update, mode-changing update, merge by reference and by move, copy- and move-construction, copy- and move-assignment, self-assignment, reset, serialize and destroy on 2 (and 3) slots; after every operation copies equal their source, other slots are unchanged, moved-from objects accept destruction and assignment, the ledgers show no arena / size mismatch and no item misuse, no ASan report; every new state is then destroyed completely and nothing may remain allocated, items constructed == destroyed.",
    note="Content alphabet of at most 2 light and 1 mode-changing operation per slot; transient scratch obtained through std::allocator is not gated."),
  "C20": dict(engine="E3", design="3/C20", technique="BFS over point sequences/merges with every coin and shuffle outcome as a branch",
-   text="Density sketch k 2..4, dim 1..2, double and float, Gaussian and a harness kernel: E1 BFS over the product (sketch x exact multiset) under update by lvalue/rvalue, wrong-dimension update, merge / merge(move) / reverse merge with an operand menu (empty, k-1, k+1 with one entry per compaction outcome, other k, wrong dimension), update-only to 2k+3 and deep merges needing two compactions; every coin and shuffle outcome of a compaction is a branch (interval discovery on the raw draws, cross-checked against direct enumeration for levels of 2..6 points). In every state: n exact, retained == iterated == sum of level sizes, weights 2^level in level order, retained <= k x levels, retained points are inputs with at most their multiplicity, estimates finite and >= 0, estimate == exact kernel mean (1e-12) while nothing has been compacted, is_estimation_mode iff compacted, merge adds n, const operand unchanged, wrong dimension refused with both sides unchanged, plain round trip.",
-   note="4- and 7-point grids; levels of more than 6 points would be capped (did not occur); tape values with 32 zero low bits are nudged because libstdc++'s uniform_int_distribution rejects exactly dyadic raw values for ranges 6, 12, 20, ..."),
+   text="Density sketch k 2..4, dim 1..2, double and float, Gaussian and a harness kernel: E1 BFS over the product (sketch x exact multiset) under update by lvalue/rvalue, wrong-dimension update, merge / merge(move) / reverse merge with an operand menu (empty, k-1, k+1 with one entry per compaction outcome, other k, a much larger k holding an uncompacted level, wrong dimension), update-only to 2k+3 and deep merges needing two compactions; every coin and shuffle outcome of a compaction is a branch (interval discovery on the raw draws, cross-checked against direct enumeration for levels of 2..6 points). In every state: n exact, retained == iterated == sum of level sizes, weights 2^level in level order, retained <= k x levels, retained points are inputs with at most their multiplicity, estimates finite and >= 0, estimate == exact kernel mean (1e-12) while nothing has been compacted, is_estimation_mode iff compacted, merge adds n, const operand unchanged, wrong dimension refused with both sides unchanged, plain round trip.",
+   note="4- and 7-point grids and a grid of far-apart points (Gaussian kernel exactly 0 between different points); levels of more than 6 points would be capped (did not occur); tape values with 32 zero low bits are nudged because libstdc++'s uniform_int_distribution rejects exactly dyadic raw values for ranges 6, 12, 20, ..."),
 }
 
 # harnesses that are committed but whose triage on the unchanged tree is still in progress
